@@ -414,6 +414,113 @@ def tb_mutants(b):
             i = b.find(sig, i + 1)
 
 
+def rich_seeds(ck):
+    """small PSD and PSB documents built once with psd_tools' own classes, carrying payload classes with version-dependent
+    trailers and optional fields: 'lrFX' EffectsLayer with every effect record (cmnS, dsdw, isdw, oglw, iglw, bevl v2 / v0, sofi),
+    SectionDividerSetting of 4 / 12 / 16 bytes, a DescriptorBlock ('SoCo'), Patterns ('Patt'), MaskData with parameters (values 0 and
+    0.0 included) and with real_* fields, unknown keys, and - in the PSB - '8B64' blocks with keys inside and outside _BIG_KEYS"""
+    from psd_tools.constants import ColorMode, Compression
+    from psd_tools.psd import descriptor as D
+    from psd_tools.psd import patterns as P
+    from psd_tools.psd.tagged_blocks import SectionDividerSetting
+    from psd_tools.constants import BlendMode, SectionDivider
+    from psd_tools.terminology import Unit
+
+    from . import format_common as F
+
+    K = lambda k: F.fcc(k)
+    norm, mul, scrn = K(b"norm"), K(b"mul "), K(b"scrn")
+    col = lambda *v: [0, list(v)]
+    fx = lambda items: F.obj_effects([0, [[F.FXK[k], e] for k, e in items]]).tobytes()
+    fx_a = fx([("cmnS", ["common", 0, 1]),
+               ("dsdw", ["shadow", 2, 5, 80, 120, 7, col(0, 0, 0, 0), mul, 1, 1, 191, col(0, 0, 0, 0)]),
+               ("isdw", ["shadow", 0, 3, 60, 30, 4, col(65535, 0, 0, 0), mul, 0, 0, 100, col(65535, 0, 0, 0)]),
+               ("oglw", ["oglow", 2, 6, 200, col(65535, 65535, 48000, 0), scrn, 1, 191, col(65535, 65535, 48000, 0)]),
+               ("iglw", ["iglow", 2, 6, 200, col(65535, 65535, 48000, 0), scrn, 1, 191, 0, col(65535, 65535, 48000, 0)]),
+               ("bevl", ["bevel", 2, 120, 5, 5, scrn, mul, col(65535, 65535, 65535, 0), col(0, 0, 0, 0), 1, 75, 75, 1, 1, 0,
+                         [col(65535, 32768, 0, 0), col(0, 32768, 65535, 0)]]),
+               ("sofi", ["sofi", 2, norm, col(65535, 0, 0, 0), 255, 1, col(65535, 0, 0, 0)])])
+    fx_b = fx([("cmnS", ["common", 0, 1]),
+               ("oglw", ["oglow", 0, 6, 200, col(1, 2, 3, 0), scrn, 1, 191, None]),
+               ("iglw", ["iglow", 0, 6, 200, col(1, 2, 3, 0), scrn, 1, 191, None, None]),
+               ("bevl", ["bevel", 0, 120, 5, 5, scrn, mul, col(65535, 65535, 65535, 0), col(0, 0, 0, 0), 1, 75, 75, 1, 1, 0, None])])
+    sd = lambda *a: SectionDividerSetting(*a).tobytes()
+    lsct16 = sd(SectionDivider.OPEN_FOLDER, b"8BIM", BlendMode.PASS_THROUGH, 1)
+    lsct12 = sd(SectionDivider.CLOSED_FOLDER, b"8BIM", BlendMode.NORMAL)
+    lsct4 = sd(SectionDivider.BOUNDING_SECTION_DIVIDER)
+    soco = D.DescriptorBlock(items=[
+        (b"Clr ", D.Descriptor(items=[(b"Rd  ", D.Double(255.0)), (b"Grn ", D.Double(0.5))], classID=b"RGBC")),
+        (b"Nm  ", D.String("ab")), (b"Cnt ", D.Integer(3)), (b"Lst ", D.List([D.Integer(1), D.Bool(True)])),
+        (b"Ornt", D.Enumerated(b"Ornt", b"Hrzn")), (b"Opct", D.UnitFloat(50.0, Unit.Percent))], classID=b"null").tobytes()
+    vma = lambda d: P.VirtualMemoryArray(1, 8, [0, 0, 2, 2], 8, Compression.RAW, d)
+    patt = P.Patterns([P.Pattern(1, ColorMode.RGB, [2, 2], "pat", "id-1", None,
+                                 P.VirtualMemoryArrayList(3, [0, 0, 2, 2], [vma(b"\1\2\3\4"), vma(b"\5\6\7\x08"), vma(b"\x09\x0a\x0b\x0c")]))]).tobytes()
+    S, S64 = F.SIG_8BIM, F.SIG_8B64
+    one, zero = F.dbl_bits(1.0), F.dbl_bits(0.0)
+    mask_p = [0, 0, 2, 2, 0, 16, [0, zero, 255, one], [1, 255, 0, 0, 2, 2]]       # parameters (a density 0, a feather 0.0) + real_* fields
+    mask_q = [1, 1, 3, 3, 255, 16, [200, None, None, one], None]
+    ranges = [[[0, 65535], [0, 65535]], [[[0, 65535], [0, 65535]]]]
+    rec = lambda name, mask, blocks, nch: [0, 0, 2, 2, [[i - 1, 6] for i in range(nch)], S, norm, 255, 0, 8, mask, ranges, name, blocks]
+    cds = lambda nch: [[0, bytes([9, 8, 7, 6])] for _ in range(nch)]
+    out = []
+    for version in (1, 2):
+        big = [[S64, K(b"Alph"), bytes(range(1, 11))], [S, K(b"Layr"), bytes(7)]] if version == 2 else [[S, K(b"Alph"), bytes(range(1, 11))]]
+        end = lambda: rec(b"</Layer group>", None, [[S, K(b"lsct"), lsct4]], 0)
+        recs = [end(),
+                rec(b"fx a", mask_p, [[S, K(b"lrFX"), fx_a], [S, K(b"zzzz"), b"\1\2\3"]], 2),
+                rec(b"grp1", None, [[S, K(b"lsct"), lsct12]], 0),
+                end(),
+                rec(b"fx b", mask_q, [[S, K(b"lrFX"), fx_b], [S, K(b"SoCo"), soco]], 1),
+                rec(b"grp2", None, [[S, K(b"lsct"), lsct16]] + ([[S64, K(b"abcd"), b"\5\6"]] if version == 2 else []), 0)]
+        d = [[F.SIG_8BPS, version, 3, 2, 2, 8, 3], b"", [[S, 1001, b"", b"\1\2\3"]],
+             [[6, recs, [cds(0), cds(2), cds(0), cds(0), cds(1), cds(0)]], [[0, 65535, 0, 0, 0], 50, 128], [[S, K(b"Patt"), patt]] + big],
+             [0, bytes(12)]]
+        f = io.BytesIO()
+        F.obj_psd(d, "macroman").write(f)
+        out.append(("rich:v%d" % version, f.getvalue()))
+    return out
+
+
+def _tb_sites(b):
+    """offsets of every 'signature key length' triple in b (tagged blocks / resources are found by their signature)"""
+    sites = []
+    for sig in (b"8BIM", b"8B64"):
+        i = b.find(sig)
+        while i >= 0:
+            if i + 12 <= len(b):
+                sites.append(i)
+            i = b.find(sig, i + 1)
+    return sorted(sites)
+
+
+def leaf_mutants(b, psb):
+    """structure-level mutations INSIDE payloads: every byte of the file +1 / -1 and every single-bit flip (version, count, flag,
+    parameter fields of the payload classes are all among them); on every tagged block: signature swapped 8BIM <-> 8B64, key replaced
+    by a key inside / outside TaggedBlock._BIG_KEYS, by an unknown key; zeroed 4- and 8-byte fields (parameter values 0 / 0.0)"""
+    n = len(b)
+    for o in range(26, n):
+        x = b[o]
+        vals = {(x + 1) & 255, (x - 1) & 255} | {x ^ (1 << k) for k in range(8)}
+        for v in sorted(vals):
+            m = bytearray(b)
+            m[o] = v
+            yield ("byte@%d=%d" % (o, v), bytes(m))
+    for o in range(26, n - 7):
+        if b[o:o + 8] != bytes(8):
+            m = bytearray(b)
+            m[o:o + 8] = bytes(8)
+            yield ("zero8@%d" % o, bytes(m))
+    for i in _tb_sites(b):
+        m = bytearray(b)
+        m[i:i + 4] = b"8B64" if b[i:i + 4] == b"8BIM" else b"8BIM"
+        yield ("sigswap@%d" % i, bytes(m))
+        for key in (b"Alph", b"Layr", b"lnk2", b"abcd", b"luni", b"lsct", b"lrFX"):
+            if b[i + 4:i + 8] != key:
+                m = bytearray(b)
+                m[i + 4:i + 8] = key
+                yield ("key@%d=%s" % (i, key.decode()), bytes(m))
+
+
 def tiny_seeds(ck):
     """hand-made minimal files (the witnesses of Properties/C02.v and its example) and small generated documents of both
     versions with unknown tagged-block keys / resource ids, masks, blending ranges, global layer mask info"""
@@ -448,8 +555,8 @@ def run():
     ck.rule = ("seeds = API-built documents + small fixtures + hand-made minimal files + small generated documents (both versions); mutants = every "
                "truncation offset of small files, structural boundaries, bit flips in header/length/count fields, max-value/zero substitution in "
                "aligned 2/4/8-byte fields, random substitutions, splices (generator shared with C06); oracle: every mutant the reader accepts "
-               "(non-trivial = accepted mutant that differs from its seed); correspondence: accepted AND rejected mutants of the small seeds "
-               "(all of them) and a sample per larger fixture, model reader/writer (vm_compute) vs implementation with payload registries emptied")
+               "(non-trivial = accepted mutant that differs from its seed); correspondence: accepted AND rejected mutants - all of them for the hand-made files (thorough: for every seed up "
+               "to 3000 bytes), a sample of 600 per small seed and of 30 / 250 per larger fixture, model reader/writer (vm_compute) vs implementation with payload registries emptied")
     # ---- Coq: theorems
     if ck.coq_build(["theories/Psd/ResaveProofs.v", "theories/Psd/ResaveWrite.v", "theories/Properties/C02.v"]):
         ck.collect_theorems("C02.v")
@@ -461,14 +568,19 @@ def run():
             ck.obligations.append(("coq-witnesses-are-the-replayed-bytes", True, ""))
         except Exception as e:
             ck.obligations.append(("coq-witnesses-are-the-replayed-bytes", False, str(e)[-500:]))
+    import time as _t
+    t_coq = _t.time() - ck.t0
     # ---- inputs
     inputs, meta = [], {}
-    seedlist = list(c06.seeds(ck)) + tiny_seeds(ck)
+    rich = rich_seeds(ck)
+    seedlist = list(c06.seeds(ck)) + tiny_seeds(ck) + rich
+    richnames = {n for n, _ in rich}
     for name, b in seedlist:
         inputs.append((len(inputs), b))
         meta[len(inputs) - 1] = (name, "seed")
         seen = set()
-        for desc, m in itertools.chain(c06.gen_mutants(ck, name, b), tb_mutants(b)):
+        for desc, m in itertools.chain(c06.gen_mutants(ck, name, b), tb_mutants(b),
+                                       leaf_mutants(b, b[4:6] == b"\x00\x02") if name in richnames else ()):
             if m in seen or m == b:
                 continue
             seen.add(m)
@@ -491,6 +603,7 @@ def run():
         ck.count("mut:" + desc.split("@")[0])
     ck.sample({"mutant": meta[len(inputs) // 2], "lowlevel": results[len(inputs) // 2][1], "api": results[len(inputs) // 2][2]})
     ck.obligations.append(("oracle-stream", True, ""))
+    t_oracle = _t.time() - ck.t0
     # ---- correspondence: the model's read / save / re-read / save-again on the same bytes
     by_seed = {}
     for cid, b in inputs:
@@ -499,16 +612,16 @@ def run():
     for name, b in seedlist:
         cids = by_seed[name]
         n = len(b)
-        if n <= 1000:
+        if n <= 200 or (thorough and n <= 3000):
             take = cids
         elif n <= 3000:
-            take = cids if thorough else [cids[0]] + ck.rng.sample(cids[1:], min(len(cids) - 1, 1200))
+            take = [cids[0]] + ck.rng.sample(cids[1:], min(len(cids) - 1, 600))
         elif n <= 40000:
             take = [cids[0]] + ck.rng.sample(cids[1:], min(len(cids) - 1, 250 if thorough else 30))
         else:
             take = []
         sel.extend(take)
-        ck.count("corr-seed:" + ("tiny" if n <= 1000 else "small" if n <= 3000 else "fixture"), len(take))
+        ck.count("corr-seed:" + ("tiny" if n <= 200 else "small" if n <= 3000 else "fixture"), len(take))
     sel_inputs = [inputs[c] for c in sel]
     with multiprocessing.get_context("fork").Pool(14, initializer=_container_level) as pool:
         cres = pool.map(_cwork, sel_inputs, chunksize=32)
@@ -537,6 +650,7 @@ def run():
         elif gb == 0 and desc != "seed":
             ck.nontriv(("container", cid))
     ck.obligations.append(("canonical-equality-agrees-with-attrs-eq", canon_bad == 0, "%d cases" % canon_bad if canon_bad else ""))
+    t_impl = _t.time() - ck.t0
     bad = ck.correspond("resave_mutants", "resave_outcome", IMPORTS, cases, F.coq_bytes, chunk=60, timeout=1800)
     for i in bad[:8]:
         cid = sel[i]
@@ -555,6 +669,8 @@ def run():
         "(Model.read_psd + those four checks), proved to accept a subset of what read_psd accepts; the re-read of the saved bytes in the theorems is "
         "read_psd (the saved lengths are truthful and far below 2^63; compared on every case by the correspondence)",
     ]
+    ck.notes.append("phases (s since start): coq build+theorems %.0f, oracle stream %.0f, container-level runs %.0f, correspondence %.0f" % (
+        t_coq, t_oracle, t_impl, _t.time() - ck.t0))
     # codec_ok on the Python codec
     okc = all(bytes([x]).decode("macroman").encode("macroman") == bytes([x]) for x in range(256))
     ck.obligations.append(("codec_ok:macroman", okc, ""))
